@@ -339,7 +339,7 @@ cdef _deserialize_map(itemlen_t dummy_version,
         val = from_binary(val_deserializer, &val_buf, protocol_version)
         if key_buf.size < 0:
             flat_key = None
-        elif key_type.subtypes:
+        elif key_type.subtypes or getattr(key_type, 'subtype', None) is not None:
             # lookups serialize the decoded key; a decoded set is sorted, which need
             # not be the order of the elements on the wire
             flat_key = key_type.to_binary(key, protocol_version)
